@@ -246,6 +246,15 @@ def s23(rng):
     return "DdtGaussian", cfg, h, True
 
 
+@scen("lambda_mst/very unlikely data (log L << -745)")
+def s26(rng):
+    cfg, h = base_cfg(rng, "DdtGaussian")
+    cfg.update(lambda_mst_distribution="GAUSSIAN", mst_ifu=False)
+    cfg["_tiny_sigma"] = True
+    h["kwargs_lens"].update(lambda_mst_sigma=0.02)
+    return "DdtGaussian", cfg, h, True
+
+
 @scen("all zero")
 def s24(rng):
     cfg, h = base_cfg(rng, "DdtGaussKin")
@@ -270,6 +279,8 @@ def gen_case(rng, k):
     name, f = SCENARIOS[k % len(SCENARIOS)]
     lt, cfg, h, applicable = f(rng)
     data = lc.data_kwargs(rng, lt)
+    if cfg.pop("_tiny_sigma", False):
+        data["ddt_sigma"] = 5.0     # the model Ddt is hundreds of sigma away: every exp(l_i) underflows
     g = cfg.pop("_grid", None)
     if g:
         nbin = len(data["sigma_v_measurement"]) if lt in lc.KIN_TYPES else 1
@@ -293,10 +304,14 @@ def oracle(case, runs):
             fails.append("single noisy draw: value does not average over draws")
         ls = r1.singles
         if len(ls) == n:
-            es = [math.exp(l) for l in ls]
-            es = [e for e in es if math.isfinite(e) and e > 0]
-            want = math.log(sum(es) / n) if sum(es) > 0 else -math.inf
-            if not close(o1["value"], want, 1e-12):
+            # log of the arithmetic mean of L, computed stably (the property is about real numbers)
+            fin = [l for l in ls if math.isfinite(l)]
+            if fin:
+                mx = max(fin)
+                want = mx + math.log(sum(math.exp(l - mx) for l in fin) / n)
+            else:
+                want = -math.inf
+            if not close(o1["value"], want, 1e-10):
                 fails.append("value %r is not log(mean(exp l_i)) = %r" % (o1["value"], want))
     else:
         if len(r1.data) != 1:
